@@ -127,7 +127,7 @@ def evaluate_huge(case):
 
 SUBCHECKS = [
     SubCheck("encode_vs_reference", evaluate_encode, strategy=s_encode, examples=(5000, 40000), shards=(12, 16),
-             floors={"deg3_met": 100, "deg1_met": 100, "table_at_deg2or3": 100, "multi_radix": 100, "fast": 500},
+             floors={"deg3_met": 100, "deg1_met": 100, "table_at_deg2or3": 100, "multi_radix": 100, "fast": 500, "large_k": 100},
              rule=RULE),
     SubCheck("decode_walks", evaluate_decode, strategy=walk_cases, examples=(3000, 30000), shards=(8, 16),
              floors={"deg3_met": 100, "table_at_deg2or3": 100, "fast": 200}, rule=RULE),
